@@ -567,6 +567,34 @@ def overrides(rep):
                               'in the order %s, through %s) gives the defaults %r, expected %r'
                               % (order, via, got, want), {})
     rep.nontrivial.add('nested-overrides')
+    # a ports schema that uses one dictionary for several variables (the usual
+    # {name: schema for name in names}): an override naming one of them reaches
+    # that one only
+    rep.evaluations += 1
+
+    class Molecules(Process):
+        def ports_schema(self):
+            molecule = {'_default': 0, '_emit': True}
+            return {'v': {name: molecule for name in ('a', 'b', 'c')}}
+
+        def next_update(self, timestep, states):
+            return {}
+    over = {'v': {'a': {'_default': 5}}}
+    for via in ('process', 'composite'):
+        if via == 'process':
+            proc = Molecules({'_schema': over})
+            comp = Composite({'processes': {'m': proc}, 'topology': {'m': {'v': ('cell',)}}})
+        else:
+            proc = Molecules()
+            comp = Composite({'processes': {'m': proc}, 'topology': {'m': {'v': ('cell',)}},
+                              '_schema': {'m': over}})
+        got = {k: v.get('_default') for k, v in proc.get_schema()['v'].items()}
+        store = comp.generate_store().get_value()['cell']
+        if got != {'a': 5, 'b': 0, 'c': 0} or store != {'a': 5, 'b': 0, 'c': 0}:
+            rep.violation({'kind': 'override', 'via': via, 'what': 'shared schema dictionary'},
+                          'C16 an override for variable a of a process whose ports schema uses '
+                          'one dictionary for a, b and c (given to the %s): the defaults are %r, '
+                          'the store holds %r, expected a: 5, b: 0, c: 0' % (via, got, store), {})
     # an override given to a composite later reaches that composite only: not
     # the composer it came from, not the composites generated from it afterwards
     rep.evaluations += 1
